@@ -58,6 +58,18 @@ Completions(T, v) ==
 PassCertain(thr, T, v) == \A c \in Completions(T, v) : DocPassedAtEnd(thr, T, c)
 CannotPass(thr, T, v)  == \A c \in Completions(T, v) : ~DocPassedAtEnd(thr, T, c)
 
+\* ---- closed forms of the two quantified notions (used on traces, where enumerating completions is
+\* too expensive); Cw3ThresholdMC checks that they coincide with the quantified definitions
+RulePassed(thr, T, v, expired) ==
+  /\ v.yes > 0
+  /\ IF thr.kind = "count" THEN v.yes >= thr.weight
+     ELSE IF thr.kind = "pct" THEN v.yes >= ExactNeeded(T - v.abstain, thr.p)
+     ELSE /\ Total(v) >= ExactNeeded(T, thr.q)
+          /\ IF expired THEN v.yes >= ExactNeeded(Total(v) - v.abstain, thr.p)
+                        ELSE v.yes >= ExactNeeded(T - v.abstain, thr.p)
+\* the best case for passing is that all outstanding weight votes yes
+RuleCanPass(thr, T, v) == DocPassedAtEnd(thr, T, [v EXCEPT !.yes = @ + (T - Total(v))])
+
 \* the outcome the rules define for a tally (C03 uses this with the ballots a proposal reports)
 Outcome(thr, T, v, expired) ==
   IF expired THEN (IF DocPassedAtEnd(thr, T, v) THEN "passed" ELSE "rejected")
